@@ -8,7 +8,21 @@ PROPS = {
         "quick": [("A", 40000), ("B", 5000)],
         "thorough": [("A", 1600000), ("B", 200000), ("C", 200000)],
         "probes": ["tombstone_created", "rehash_in_place", "resize_up", "shrink", "shrink_to_singleton", "small_table", "one_group_table", "multi_group_table", "tombstone_reused", "insert_at_full_load"],
-        "rule": "one evaluation = one simulated run: a seeded history of 10-400 HashMap operations over 3 map slots under a per-slot hash plan, every return value compared with an association-list model and the table dumped and swept after every step; non-trivial = the run contains at least one structural event (tombstone creation/reuse, in-place rehash, resize, shrink) ; distinct = distinct signatures (sequence of operation kinds + structural events), counted with a k-minimum-values sketch (exact below 4096)",
+        "rule": "one evaluation = one simulated run: a seeded history of 10-400 HashMap operations over 3 map slots under a per-slot hash plan, every return value compared with an association-list model and the table dumped and swept after every step; non-trivial = the run contains at least one structural event (tombstone creation/reuse, in-place rehash, resize, shrink); distinct = distinct signatures (sequence of operation kinds + structural events), counted with a k-minimum-values sketch (exact below 4096)",
+    },
+    "C02": {
+        "level": "exploration",
+        "quick": [("A", 30000)],
+        "thorough": [("A", 800000), ("C", 200000)],
+        "probes": ["leak_iter", "leak_drain", "leak_extract", "leak_entry", "leak_into_iter", "early_drop_drain", "early_drop_extract", "early_drop_into_iter", "small_table", "multi_group_table", "rehash_in_place", "serde_lying_hint"],
+        "rule": "one evaluation = one simulated run of mixed operations in which iterators, drains, extract_ifs and entries are advanced k steps and then dropped or mem::forget-ten (cancellation faults F9/F10), with lying size hints (F13), colliding hash plans, exact-alignment-only allocator placement, element layouts 8..208 bytes and align up to 64; oracles: ledger (double drop, dead reference), red-zone canaries, quarantine poison, layout match, dump invariants I1-I4 and allocator balance after every call; non-trivial/distinct as for C01",
+    },
+    "C03": {
+        "level": "exploration",
+        "quick": [("A", 30000)],
+        "thorough": [("A", 1000000)],
+        "probes": ["early_drop_drain", "early_drop_extract", "early_drop_into_iter", "clone_from_same_buckets", "clone_from_diff_buckets", "clone_from_src_empty", "clone_from_dst_tombstones", "shrink", "shrink_to_singleton", "rehash_in_place"],
+        "rule": "one evaluation = one simulated run ending in or containing removal, overwrite, clear, retain/extract_if, drain, into_iter/into_keys/into_values with sampled cut points, shrink, clone_from into an occupied target and drop; oracle: every element serial dropped exactly once or moved out once, every block returned once with its original layout, nothing live at the end; non-trivial/distinct as for C01",
     },
     "C04": {
         "level": "fault_enumeration",
@@ -16,6 +30,69 @@ PROPS = {
         "thorough": [("A", 80000), ("C", 20000)],
         "probes": ["panic_in_resize", "panic_in_rehash_in_place", "panic_in_clone", "panic_in_drop", "panic_in_pred", "panic_in_eq", "panic_in_hash_lookup"],
         "rule": "one evaluation = one execution of a scenario; each seeded scenario is first executed fault-free to count the callback invocations of every class inside every operation, then re-executed with the k-th invocation of one class panicking inside one target operation, for every k (thorough) or k in {1, last, 2 random} (quick); non-trivial = a fault fired or a structural event occurred; distinct = distinct signatures (operation kinds + structural events + fired fault class), k-minimum-values sketch",
+    },
+    "C05": {
+        "level": "exploration",
+        "quick": [("A", 20000)],
+        "thorough": [("A", 500000), ("C", 50000)],
+        "probes": ["byz_hash_answer", "byz_eq_answer", "rehash_in_place", "resize_up", "tombstone_created"],
+        "rule": "one evaluation = one simulated run under a byzantine hash plan (fresh value per call / periodic flips / epoch changes) and/or a byzantine equality (random, always true, always false, asymmetric) for the whole run; only the safety subset of the oracles is active (ledger, canaries, invariants I1-I4, len()==iter().count(), per-operation callback cap as divergence verdict, everything dropped exactly once at the end); non-trivial/distinct as for C01",
+    },
+    "C08": {
+        "level": "exploration",
+        "quick": [("A", 30000)],
+        "thorough": [("A", 1000000)],
+        "probes": ["insert_at_full_load", "shrink", "shrink_to_singleton", "reserve_rehash", "tombstone_created"],
+        "rule": "one evaluation = one simulated run mixing with_capacity/new/default, reserve, fill-to-capacity (zero allocator calls allowed), clear, drain, shrink_to/shrink_to_fit and tombstone-creating removals, with the allocator as measuring instrument (calls and bytes per operation); non-trivial/distinct as for C01",
+    },
+    "C09": {
+        "level": "exploration",
+        "quick": [("A", 30000), ("B", 5000)],
+        "thorough": [("A", 900000), ("B", 100000)],
+        "probes": ["iter_clone_mid", "iter_fold_switch", "iter_default", "iter_after_exhaustion", "small_table", "one_group_table", "multi_group_table", "tombstone_created"],
+        "rule": "one evaluation = one simulated run in which, in every reached state, iter/iter_mut/keys/values/values_mut/into_iter/into_keys/into_values/drain are driven by a plan (a x next, optional clone, then next/fold/for_each/count/last/nth, then calls after exhaustion) with size_hint/len checked at every step; non-trivial/distinct as for C01",
+    },
+    "C10": {
+        "level": "exploration",
+        "quick": [("A", 30000)],
+        "thorough": [("A", 1000000)],
+        "probes": ["early_drop_drain", "early_drop_extract", "tombstone_created", "multi_group_table", "small_table"],
+        "rule": "one evaluation = one simulated run with retain / extract_if predicates answering true on an arbitrary PRNG-drawn subset (and mutating values), extract_if and drain dropped after k steps for sampled k; oracle: predicate called exactly once per element, kept/yielded sets exact, unvisited elements stay, drain leaves an empty usable collection holding the same block; non-trivial/distinct as for C01",
+    },
+    "C11": {
+        "level": "exploration",
+        "quick": [("A", 20000)],
+        "thorough": [("A", 500000)],
+        "probes": ["clone_from_same_buckets", "clone_from_diff_buckets", "clone_from_src_empty", "clone_from_dst_tombstones"],
+        "rule": "one evaluation = one simulated run over three slots with independently seeded hash plans: clone, clone_from along all structural paths, == both ways, then further mutation of either side; non-trivial/distinct as for C01",
+    },
+    "C12": {
+        "level": "fault_enumeration",
+        "quick": [("A", 30000)],
+        "thorough": [("A", 1000000)],
+        "probes": ["refused_alloc", "capacity_overflow", "try_reserve_ok"],
+        "rule": "one evaluation = one simulated run in which try_reserve is called in every reached state with amounts from {small, around 7/8*2^k, isize::MAX, usize::MAX, usize::MAX/size_of<T> +-1} under allocator refusal modes (refuse the 1st request / everything / above a byte limit); an operation makes at most one allocator request, so refusing request j=1 enumerates the fault positions; non-trivial/distinct as for C01",
+    },
+    "C13": {
+        "level": "exploration",
+        "quick": [("A", 1500), ("B", 200)],
+        "thorough": [("A", 18000), ("B", 2000)],
+        "probes": ["rehash_in_place", "tombstone_created", "tombstone_reused", "churn_long", "lookup_absent_saturated"],
+        "rule": "one evaluation = one long churn history (2 000-100 000 operations) of insert/remove/lookup with live size <= n (n in 1..200), removal order random/FIFO/LIFO/middle, no explicit reservation, under Seq / clustered / all-colliding / mixed plans; oracle at every step: allocation_size() <= 8 x allocation of a fresh with_capacity(peak live size), invariant I4, per-operation callback cap and CPU watchdog (termination); non-trivial/distinct as for C01",
+    },
+    "C14": {
+        "level": "exploration",
+        "quick": [("A", 30000)],
+        "thorough": [("A", 1000000)],
+        "probes": ["entry_at_full_load", "entry_on_singleton", "entry_tombstone_saturated", "vacant_dropped", "rehash_in_place"],
+        "rule": "one evaluation = one simulated run in which method chains of length <= 3 on entry, entry_ref, raw_entry_mut (from_key, from_key_hashed_nocheck, from_hash), raw_entry and rustc_entry are applied to present and absent keys in states steered to capacity()==len(), tombstone saturation and the unallocated singleton; the observation log of each chain must equal that of the same chain on the model; non-trivial/distinct as for C01",
+    },
+    "C15": {
+        "level": "exploration",
+        "quick": [("A", 20000)],
+        "thorough": [("A", 500000)],
+        "probes": ["get_many_dup", "get_many_absent", "get_many_all_present"],
+        "rule": "one evaluation = one simulated run issuing get_many_mut / get_many_key_value_mut with N = 0..4 requests including duplicates and absent keys, under plans colliding in position and tag bits, and (one third of the runs) an equality that matches several entries; oracle: request order, right entry per request (serial), pairwise distinct addresses, panic iff two requests resolve to one entry, sentinel writes land in the requested entries; non-trivial/distinct as for C01",
     },
 }
 
@@ -38,7 +115,7 @@ NOT_APPLICABLE = {
     "C16": "Send/Sync markers, variance and borrow lifetimes are decided entirely by the type checker on generic obligations: there is no execution, schedule or fault for a deterministic simulator to drive or observe (DESIGN section 11)",
     "C17": "pure integer arithmetic whose stated quantifier is an exhaustive enumeration of capacities x sizes x alignments: no schedule, clock, fault or interleaving; seeded simulation would only be input generation under another name (DESIGN section 11)",
 }
-for _p in ["C02", "C03", "C05", "C06", "C07", "C08", "C09", "C10", "C11", "C12", "C13", "C14", "C15", "C18", "C19", "C20"]:
+for _p in ["C06", "C07", "C18", "C19", "C20"]:
     NOT_APPLICABLE.setdefault(_p, NA_TECH)
 
 _TB = "trusts rustc/std, the system allocator under SimAlloc, the reference model and oracles in hbsim; x86-64 only; sampling, not enumeration"
@@ -54,5 +131,71 @@ LEVEL_TEXT = {
         "design_ref": "DESIGN.md section 9 C04, section 10",
         "note": _TB + "; Into-conversion panics (F6) are only reachable through entry_ref",
         "technique": "deterministic simulation with fault injection: panic at the k-th callback invocation, enumerated over k by exact re-execution",
+    },
+    "C02": {
+        "text": "seeded search over client programs with cancellation faults (drop or mem::forget of any iterator/drain/extract_if/entry after k steps), lying size hints and adversarial allocator placement, across element layouts; decided by universal safety monitors (ledger of live elements, red zones, poison, quarantine, layout match) plus the structural invariants that the unsafe core's preconditions rest on, after every call. Exploration: out-of-bounds reads that change nothing observable are only visible to the sanitizer builds",
+        "design_ref": "DESIGN.md section 9 C02",
+        "note": _TB + "; out-of-bounds reads without observable effect need the ASan/Miri builds (thorough, when available)",
+        "technique": "deterministic simulation with fault injection: cancellation points (early drop / mem::forget), lying size hints, allocator placement",
+    },
+    "C03": {
+        "text": "seeded search over histories with every kind of element exit (removal, overwrite, clear, retain, extract_if, drain, owning iterators cut at sampled points, shrink, clone_from into occupied targets, drop) against an exact ledger of element instances and allocator blocks with layouts; balance is checked after every step and at the end of the run",
+        "design_ref": "DESIGN.md section 9 C03",
+        "note": _TB,
+        "technique": "deterministic simulation: element/allocation ledger under cut-point (early drop) faults",
+    },
+    "C05": {
+        "text": "seeded search over histories under byzantine Hash and Eq implementations (fresh pseudo-random answers per call, periodic flips, epoch changes, non-equivalence equalities); only the safety subset of the oracles is active: no double drop, no dead reference, canaries intact, structural invariants, len()==yielded, termination by callback cap and CPU watchdog, exact final drop balance",
+        "design_ref": "DESIGN.md section 9 C05",
+        "note": _TB,
+        "technique": "deterministic simulation with fault injection: byzantine hash/equality answers drawn from the run's PRNG",
+    },
+    "C08": {
+        "text": "seeded search over reachable states (occupied slots and tombstones) with the allocator seam as measuring instrument: the stated inequalities of the capacity contract are checked exactly as stated (no exact capacities), including zero allocator calls while filling spare capacity and shrink bounds against an actually constructed fresh with_capacity table",
+        "design_ref": "DESIGN.md section 9 C08",
+        "note": _TB + "; HashMap only so far (sets/tables share RawTable::reserve/shrink_to)",
+        "technique": "deterministic simulation (fault-free configuration) with a counting allocator seam",
+    },
+    "C09": {
+        "text": "seeded search over reachable occupancy patterns x iterator consumption plans (switch point from next() to fold/for_each/count/last/nth, clone at the switch point, calls after exhaustion) with size_hint/len compared with the true remaining count at every step, for all nine map iterators and their Default instances",
+        "design_ref": "DESIGN.md section 9 C09",
+        "note": _TB,
+        "technique": "deterministic simulation (fault-free configuration plus early-drop cut points): iterator plans vs reference model",
+    },
+    "C10": {
+        "text": "seeded search over reachable states x predicate subsets x early-drop points of extract_if and drain; the predicate's argument multiset, the kept/yielded sets, persistence of mutations and the allocator calls of drain are compared with the model",
+        "design_ref": "DESIGN.md section 9 C10",
+        "note": _TB,
+        "technique": "deterministic simulation with cancellation faults (early drop at step k) and PRNG-drawn predicates",
+    },
+    "C11": {
+        "text": "seeded search over ordered pairs of slot states built by independent histories under independently seeded hash plans: clone/clone_from along all structural paths with clone/drop accounting by serial, == in both directions against model equality, independence under later mutation",
+        "design_ref": "DESIGN.md section 9 C11",
+        "note": _TB + "; == is evaluated through the public operations PartialEq is specified by (len + get of every pair) because the simulator's value types deliberately do not implement PartialEq",
+        "technique": "deterministic simulation (fault-free configuration): pairs of slots with per-slot hash plans vs reference model",
+    },
+    "C12": {
+        "text": "fault enumeration over allocator refusals: try_reserve makes at most one allocator request, so refusing request 1 (or everything, or anything above a byte limit) in every reached state with boundary amounts enumerates the fault space per state; decided by Result classification against the stated overflow band, layout validity at the seam, and bit-for-bit state equality (dump, len, capacity, blocks, drop count) after an error",
+        "design_ref": "DESIGN.md section 9 C12",
+        "note": _TB + "; zero-sized elements are covered by the table world",
+        "technique": "deterministic simulation with fault injection: allocator refusal of the j-th request / byte limit",
+    },
+    "C13": {
+        "text": "bounded liveness and bounded memory over long seeded churn histories: at every step allocation_size() must stay within 8x the allocation of a fresh table for the peak live size, I4 (an EMPTY stopper always exists) must hold, and every call must return within a callback cap / CPU budget, under plans that pack runs and saturate tables with tombstones",
+        "design_ref": "DESIGN.md section 9 C13",
+        "note": _TB + "; the 8x multiple is deliberately loose (current policy stays within about 2x)",
+        "technique": "deterministic simulation: long churn histories under adversarial hash plans with memory-trace and termination oracles",
+    },
+    "C14": {
+        "text": "seeded search over reachable states (steered to full load, tombstone saturation, unallocated) x keys present/absent x method chains of length <= 3 on all seven entry flavours; each chain's observation log and resulting contents must equal the same chain on the reference model",
+        "design_ref": "DESIGN.md section 9 C14",
+        "note": _TB + "; EntryRef::key / or_insert_with_key (need K: Borrow<Q>) and or_default are not driven",
+        "technique": "deterministic simulation (fault-free configuration): entry-chain state machines vs reference model at controlled load",
+    },
+    "C15": {
+        "text": "seeded search over reachable states x request tuples (N = 0..4, duplicates, absent keys) under plans colliding in position and tag bits and, in a third of the runs, equalities that match several entries; decided by address distinctness, entry identity by serial, panic-iff-alias and sentinel write-back",
+        "design_ref": "DESIGN.md section 9 C15",
+        "note": _TB,
+        "technique": "deterministic simulation with fault injection: byzantine equality (matches several entries) on multi-key mutable borrows",
     },
 }
